@@ -212,7 +212,9 @@ def partial_events(ctx):
         tot = sum(2 ** e for e in ch)
         if tot > 2 ** 17:
             continue
-        for final in sorted({0, 1, 191, 192, ctx.rng.randrange(0, 400)}):
+        for final, fform in [(f_, None) for f_ in sorted({0, 1, 191, 192, ctx.rng.randrange(0, 400)})] + [(ctx.rng.randrange(0, 300), 5), (8384, None), (8383, 5)]:
+            if fform == 5 and len(ch) > 2 and not (len(ch) + tot) % 3 == 0:
+                continue
             n = tot + final
             content = bytes((i * 37 + 11) % 251 for i in range(n))
             # literal packet body: 'b', fnlen 0, 4 time octets, then content ; chunk it
@@ -226,9 +228,11 @@ def partial_events(ctx):
                 pkt.append(224 + e)
                 pkt += body[off:off + 2 ** e]
                 off += 2 ** e
-            if final < 192:
+            if fform == 5 or final >= 8384:
+                pkt += b'\xff' + final.to_bytes(4, 'big')
+            elif final < 192:
                 pkt.append(final)
-            elif final < 8384:
+            else:
                 pkt += bytes([((final - 192) >> 8) + 192, (final - 192) & 0xFF])
             pkt += body[off:off + final]
             wire = bytes(pkt) + b'\xaa\xbb'
